@@ -192,6 +192,15 @@ func solveOne(r *FuncResult, o *Obligation, opt solveOpts) {
 		res = portfolio(file, opt.seed, opt.timeoutS, "")
 		<-heavySem
 	}
+	if res.verdict == "error" {
+		// no solver produced a verdict line (process could not start, file vanished, resource exhaustion): not a statement
+		// about the obligation. Write the query again and race once more after a pause.
+		time.Sleep(3 * time.Second)
+		os.WriteFile(file, []byte(obligationSMT(r.Script, o, nil)), 0o644)
+		heavySem <- struct{}{}
+		res = portfolio(file, opt.seed, opt.timeoutS, "")
+		<-heavySem
+	}
 	o.Result, o.Backend, o.Ms, o.Detail = res.verdict, res.solver, res.ms, firstLines(res.raw, 6)
 	if opt.confirm && o.Result == "unsat" && o.Expect == "unsat" {
 		tries := 0
